@@ -67,12 +67,18 @@ def run_history(tid, ops, events, init_db):
                                "raised": raised, "after": snap_full(mgr.database, old if not raised else len(mgr.database))})
             elif op["op"] == "bulk":
                 ents = [dict(e) for e in op["entries"]]
+                # full rule records as they come out of another database: some carry a Composition, stale or
+                # without the Q entry; what is stored must be derived from the SMILES
+                for j, e_ in enumerate(ents):
+                    if (tid + step + j) % 3 == 0:
+                        e_["Composition"] = [{"C": 99}, {"H": 2, "O": 1}, {}][(tid + j) % 3]
                 crashed = ""
                 try:
                     rej = mgr.add_entries([dict(e) for e in ents])
                 except Exception as ex:
                     rej, crashed = [], repr(ex)
                 for e in ents:
+                    e.pop("Composition", None)
                     e["valid"] = oracle.parse(e["smiles"]) is not None
                 events.append({"ev": "bulk", "tid": tid, "step": step, "entries": ents,
                                "rejected": [{"formula": r["formula"], "smiles": r["smiles"]} for r in rej], "crashed": crashed,
